@@ -128,6 +128,12 @@ pub assume_specification [Record::find_field] (r: &Record, sm: &SymbolMap, name:
 pub assume_specification [Record::find_template_arg] (r: &Record, name: &EcoString) -> (f: Option<TemplateArgumentId>) ensures f == sp_rec_targ(r, *name);
 pub assume_specification [Multiclass::find_template_arg] (m: &Multiclass, name: &EcoString) -> (f: Option<TemplateArgumentId>) ensures f == sp_mc_targ(m, *name);
 pub assume_specification [SymbolMap::find_def] (sm: &SymbolMap, name: &EcoString) -> (f: Option<RecordId>) ensures f == sp_def(sm, *name);
+/// A-hash: EcoString obeys vstd's HashMap key model; `==` on EcoString compares the text (ecow: PartialEq via str)
+pub broadcast axiom fn ax_ecostring_key_model() ensures #[trigger] vstd::std_specs::hash::obeys_key_model::<EcoString>();
+pub assume_specification [<EcoString as core::cmp::PartialEq>::eq] (a: &EcoString, b: &EcoString) -> (r: bool) ensures r == (*a == *b);
+pub axiom fn ax_ecostring_eq()
+    ensures <EcoString as vstd::std_specs::cmp::PartialEqSpec<EcoString>>::obeys_eq_spec(),
+            forall|a: EcoString, b: EcoString| #[trigger] <EcoString as vstd::std_specs::cmp::PartialEqSpec<EcoString>>::eq_spec(&a, &b) == (a == b);
 /// the `From<..Id> for SymbolId` impls wrap the id in the variant of the same name (symbol_map/symbol.rs)
 pub axiom fn ax_into_sym()
     ensures <VariableId as IntoSpec<SymbolId>>::obeys_into_spec(), forall|id: VariableId| #[trigger] <VariableId as IntoSpec<SymbolId>>::into_spec(id) == SymbolId::VariableId(id),
